@@ -194,7 +194,7 @@ def witness_of_intersection(p1: str, p2: str, forbidden: str = "") -> Optional[s
     s0 = (a.closure({a.start}), b.closure({b.start}))
     seen = {s0}
     queue: List[Tuple[Tuple[FrozenSet[int], FrozenSet[int]], str]] = [(s0, "")]
-    order = sorted(universe)
+    order = sorted(universe, key=lambda c: (c in "\n ", c))  # witnesses prefer printable characters
     while queue:
         (sa, sb), w = queue.pop(0)
         if a.final in sa and b.final in sb:
